@@ -103,8 +103,12 @@ NAME = re.compile(r'[\w.-]+')
 
 UNSAFE_CHAR = re.compile('[\x00-\x08\x0a-\x1f\x7F",:;]')
 QUNSAFE_CHAR = re.compile('[\x00-\x08\x0a-\x1f\x7F"]')
-FOLD = re.compile(b'(\r?\n)+[ \t]')
-uFOLD = re.compile('(\r?\n)+[ \t]')
+# A fold is one or more line breaks followed by a space or a tab.  The match
+# must start at the first line break of a run of line breaks: trying every
+# later one as well makes unfolding quadratic in the length of the run (a text
+# of 20000 empty lines took 12 seconds).
+FOLD = re.compile(b'(?<!\n)(?:\r\n|(?<!\r)\n)(?:\r?\n)*[ \t]')
+uFOLD = re.compile('(?<!\n)(?:\r\n|(?<!\r)\n)(?:\r?\n)*[ \t]')
 NEWLINE = re.compile(r'\r?\n')
 
 
